@@ -243,11 +243,34 @@ class Interp:
                         v = fr.locals.get(n2, v)
             finally:
                 self.stack.pop()
+            if isinstance(v, (PyDict, PyList, PySet)) and self._module_state_written(m2, n2):
+                # a module-level container that functions go on writing (and whose content is not determined by its
+                # key): what it holds when the analysed call starts was left there by earlier calls
+                v = self.new_opaque(f"state-left-by-earlier-calls:{m2.short}.{n2}")
             self.global_cache[key2] = v
         else:
             raise Unsupported(f"cannot resolve global {name} in {mod.name}")
         self.global_cache[key] = v
         return v
+
+    def _module_state_written(self, mod: ModuleInfo, name: str) -> bool:
+        from . import effects
+
+        for w in effects.census(self.model, exclude_modules=()):
+            if w.cls != "shared" or w.fn.module is not mod:
+                continue
+            recv = w.receiver.split(".")[0].split("[")[0]
+            if recv != name:
+                continue
+            a = w.fn.node.args
+            local = {x.arg for x in a.args + a.kwonlyargs + a.posonlyargs}
+            for n in ast.walk(w.fn.node):
+                if isinstance(n, ast.Name) and isinstance(n.ctx, ast.Store) and n.id == name:
+                    local.add(name)
+            declared_global = any(isinstance(n, ast.Global) and name in n.names for n in ast.walk(w.fn.node))
+            if name not in local or declared_global:
+                return True
+        return False
 
     def lookup(self, name: str, fr: Frame, node: Optional[ast.AST] = None) -> AV:
         f: Optional[Frame] = fr
@@ -879,6 +902,10 @@ class Interp:
         raise self.unsupported(node, f"cannot iterate {it!r}")
 
     def abstract_iteration(self, src: Any, el: Elem, target: ast.expr, body, fr: Frame, node: ast.AST) -> None:
+        for nm in self._lookup_state_carried(node, fr):
+            # a dict / set that the loop body both consults and fills: in the generic iteration it holds whatever the
+            # earlier iterations put there
+            fr.locals[nm] = self.new_opaque(f"state-carried-across-iterations:{nm}")
         before = dict(fr.locals)
         sub: List[Ev] = []
         self.sink_stack.append(sub)
@@ -905,6 +932,33 @@ class Interp:
             if fr.locals.get(k) is not v:
                 sub.append(Ev("carried", value=k, site=self.site(node, fr), info=fr.locals.get(k)))
         self.emit(Ev("foreach", src=src, elem=el, body=sub, site=self.site(node, fr)))
+
+    def _lookup_state_carried(self, node: ast.AST, fr: Frame) -> List[str]:
+        body = getattr(node, "body", None)
+        if not isinstance(node, (ast.For, ast.While)) or not isinstance(body, list):
+            return []
+        out: List[str] = []
+        for nm, v in fr.locals.items():
+            if not isinstance(v, (PyDict, PySet)):
+                continue
+            wr = rd = False
+            for b in body:
+                for n in ast.walk(b):
+                    if isinstance(n, ast.Subscript) and isinstance(n.value, ast.Name) and n.value.id == nm:
+                        if isinstance(n.ctx, ast.Store):
+                            wr = True
+                        elif isinstance(n.ctx, ast.Load):
+                            rd = True
+                    elif isinstance(n, ast.Call) and isinstance(n.func, ast.Attribute) and isinstance(n.func.value, ast.Name) and n.func.value.id == nm:
+                        if n.func.attr in ("add", "update", "setdefault", "pop", "discard", "remove", "clear", "popitem"):
+                            wr = True
+                        if n.func.attr in ("get", "setdefault", "pop", "keys", "values", "items"):
+                            rd = True
+                    elif isinstance(n, ast.Compare) and any(isinstance(c, ast.Name) and c.id == nm for c in n.comparators) and any(isinstance(o, (ast.In, ast.NotIn)) for o in n.ops):
+                        rd = True
+            if wr and rd:
+                out.append(nm)
+        return out
 
     def map_events(self, events: List[Ev], target: ast.expr, body, fr: Frame, node: ast.AST) -> None:
         """Consume a trace with a loop body: structural map over the trace tree."""
@@ -1075,6 +1129,8 @@ class Interp:
         forked = 0
         limit = self.hooks.get("__while_limit__", 64)
         fork_limit = self.hooks.get("__while_fork_limit__", 3)
+        body_forked = 0
+        body_fork_limit = self.hooks.get("__while_body_fork_limit__", 6)
         while True:
             before_choices = len(self.ctx.choices)
             if not self.truth(self.eval(st.test, fr), st.test):
@@ -1089,12 +1145,18 @@ class Interp:
                     raise self.unsupported(st, "while loop over unbounded data (its condition stays undetermined); only state functions are analysed per generic iteration")
             if n > limit:
                 raise self.unsupported(st, "while loop did not terminate within the unrolling bound")
+            body_choices = len(self.ctx.choices)
             try:
                 self.exec_block(st.body, fr)
             except _Break:
                 return
             except _Continue:
-                continue
+                pass
+            if len(self.ctx.choices) > body_choices:
+                # every iteration consults unknown data again: unrolling it multiplies the paths without bound
+                body_forked += 1
+                if body_forked > body_fork_limit:
+                    raise self.unsupported(st, "while loop whose body keeps branching on unknown data (unrolling it does not converge)")
 
     def _scan_run_idiom(self, st: ast.While, fr: Frame) -> bool:
         """`while i < n and P(s[i]): i += 1` with s a symbolic string, n its length and P a character-class test
